@@ -1,4 +1,5 @@
-"""C09 -- the label algebra behind the xarray geo-registration round trip (narrow claim)."""
+"""C09 -- the label algebra behind the xarray geo-registration round trip, the GCP write side and the
+output assembly of reprojection (warp stubbed)."""
 from __future__ import annotations
 
 from fractions import Fraction as F
@@ -16,7 +17,7 @@ EXPLANATION = (
     "recovered affine must send new pixel centre j+1/2 to the world location of original pixel a + j*k."
 )
 ASSUMPTIONS = [
-    "narrow claim: everything xarray, dask or pickle does (label propagation through arithmetic / astype / pickle), attribute pruning and grid_mapping in reprojection outputs, and bit-for-bit equality of recovered floats are outside the solver's reach",
+    "outside the claim: what xarray, dask or pickle do to labels (propagation through arithmetic / astype / pickle), the warp itself, bit-for-bit equality of recovered floats. The output assembly of reprojection is covered (X6, X7) with the warp stubbed and the attribute behaviour of xarray's Dataset.map as a symbolic environment flag",
     "xarray.DataArray is replaced by a passive record (values, coords, dims, attrs, encoding); positional slicing slices the coordinate arrays (isel semantics)",
     "labels are arange(n)*a + b sequences (LinSeq model); stride and sliced length come from a grid (the recovery divides by length-1), slice origin and GeoBox symbolic",
     "floats cross the GeoTransform string attribute as opaque tokens (Python guarantees float(repr(x)) == x)",
